@@ -56,7 +56,7 @@ def check_parity(case):
     need(sorted(entries) == sorted(idx_entries), f"gamma(h).index {entries} != moment.index {idx_entries}")
 
     # (b) values under the drawn predictor
-    g = MC.as_series(m.gamma(MC.predictor(h)), "gamma(h)")
+    g = MC.as_series(m.gamma(MC.predictor(h, case.get("h_dtype"))), "gamma(h)")
     ents = MC.split_index(g.index, "gamma(h).index")
     need(ents == entries, "gamma(h).index changes with the predictor")
     ref = MC.ref_gamma(case, h, events)
@@ -91,7 +91,7 @@ def check_parity(case):
     need(bool(np.all(np.abs(bv - eps) <= 1e-12)), f"bound() = {b.tolist()}, configured slack {eps}")
 
     # (f) r = 1, hard predictions: '+' entries = MetricFrame by_group - overall of the matching rate
-    tags = []
+    tags = ["narrow_label_dtype"] if case.get("y_dtype") not in (None, "int", "float") else []
     hard = all(v in (0.0, 1.0) for v in h)
     if r == 1.0 and hard and _mf_applicable(case):
         _mf_crosscheck(case, events, entries, assigned, vals)
@@ -196,7 +196,11 @@ def check_bgl(case):
     sf = MC._wrap(case, "sf", "grp")
     m = BoundedGroupLoss(MC.make_loss(case["loss"]), upper_bound=case["upper_bound"])
     MC.load_reloaded(m, case, warm=lambda mm: mm.gamma(MC.predictor(case["h"])), only_sf=True)
-    g = MC.as_series(m.gamma(MC.predictor(case["h"])), "BoundedGroupLoss.gamma(h)")
+    g = MC.as_series(m.gamma(MC.predictor(case["h"], case.get("h_dtype"))), "BoundedGroupLoss.gamma(h)")
+    if case.get("y_dtype") not in (None, "int", "float"):
+        tags_extra = ["narrow_label_dtype"]
+    else:
+        tags_extra = []
     loss = MC.ref_loss(case["loss"], case["y"], case["h"])
     groups = MC.group_rows(case["sf"])
     keys = [str(k) for k in g.index.tolist()]
@@ -212,7 +216,7 @@ def check_bgl(case):
     need(sorted(str(k) for k in b.index.tolist()) == sorted(keys), f"bound().index {b.index.tolist()} != groups")
     need(bool(np.all(np.abs(np.asarray(b.to_numpy(), dtype=float) - case["upper_bound"]) <= 1e-12)),
          f"bound() = {b.tolist()}, upper_bound = {case['upper_bound']}")
-    tags = []
+    tags = list(tags_extra)
     if len(groups) >= 2 and _nonconstant(case["h"]):
         tags.append("nt")
     lo, hi = (0.0, 1.0) if case["loss"]["kind"] == "zero_one" else (case["loss"]["lo"], case["loss"]["hi"])
@@ -227,14 +231,14 @@ def check_bgl(case):
 
 def check_error_rate(case):
     m = MC.load_reloaded(MC.make_error_rate(case["costs"]), case, warm=lambda mm: (mm.signed_weights(), mm.gamma(MC.predictor(case["h"]))))
-    g = MC.as_series(m.gamma(MC.predictor(case["h"])), "ErrorRate.gamma(h)")
+    g = MC.as_series(m.gamma(MC.predictor(case["h"], case.get("h_dtype"))), "ErrorRate.gamma(h)")
     need(len(g) == 1, f"ErrorRate.gamma has {len(g)} entries, expected a single one: {g.to_dict()}")
     need(len(list(m.index)) == 1, f"ErrorRate.index = {list(m.index)}")
     got = float(g.iloc[0])
     exp = MC.ref_error(case["y"], case["h"], case["costs"])
     need(abs(got - exp) <= TOL * max(1.0, abs(exp)),
          f"ErrorRate(costs={case['costs']}).gamma = {got!r}; (fn*sum_[y=1](1-h) + fp*sum_[y=0]h)/n = {exp!r}")
-    tags = []
+    tags = ["narrow_label_dtype"] if case.get("y_dtype") not in (None, "int", "float") else []
     if len(set(case["y"])) == 2 and _nonconstant(case["h"]):
         tags.append("nt")
     c = case["costs"]
